@@ -51,8 +51,11 @@ class Frame:
 
 
 class LoopSpec:
-    def __init__(self, index="i", invariants=(), modifies=(), entry_ghosts=None, assumed=()):
+    def __init__(self, index="i", invariants=(), modifies=(), entry_ghosts=None, assumed=(), unchanged=()):
         self.index, self.invariants, self.modifies = index, list(invariants), list(modifies)
+        # lists allocated earlier on this path that the loop does not write (e.g. the snapshot it iterates over): not havocked at the cut;
+        # a write to one of them inside the body is a frame obligation that fails
+        self.unchanged = list(unchanged)
         self.entry_ghosts = entry_ghosts or {}     # ghost name -> spec expr, evaluated once when the loop is reached
         # invariants established by ANOTHER task on the same loop (staged invariant proof: that task proves them without using this task's invariants);
         # assumed at the loop head here, never checked here
@@ -1449,6 +1452,7 @@ class Interp(Ops, Builtins, DynOps):
         """the loop frame assumed at the cut (pre-existing objects and lists unchanged) is an obligation on the body's writes"""
         ctx = self.ctx
         allowed = [self.eval_spec(tx, fr).z for tx in spec.modifies]
+        kept = [self.eval_spec(tx, fr).z for tx in getattr(spec, "unchanged", ())]
         seen = set()
         havocked = set()
         for (on, an) in getattr(self, "_loop_attrs", ()):
@@ -1467,7 +1471,7 @@ class Interp(Ops, Builtins, DynOps):
                 continue
             seen.add(k)
             what = "list" if w[0] == "list" else f"field.{w[1]}.{w[2]}"
-            ctx.oblige(f"{tag}.frame.{what}_write_only_to_new_objects", z3.Or(z3.Not(ctx.is_old(ref)), *[ref == a for a in allowed]), w[-1], kind="frame")
+            ctx.oblige(f"{tag}.frame.{what}_write_only_to_new_objects", z3.And(z3.Or(z3.Not(ctx.is_old(ref)), *[ref == a for a in allowed]), *[ref != u for u in kept]), w[-1], kind="frame")
 
     def havoc_for_loop(self, fr, names, attrs, spec, node):
         """forget everything the loop body may change: assigned locals, assigned fields of concrete objects,
@@ -1489,6 +1493,7 @@ class Interp(Ops, Builtins, DynOps):
             elif o.kind == "sobj":
                 self.havoc_field(o.cname, an)
         temps = {t.get_id() for t in getattr(ctx, "loop_temporaries", [])}
+        temps |= {self.eval_spec(tx, fr).z.get_id() for tx in getattr(spec, "unchanged", ())}
         fresh = [r for r in ctx.fresh_refs if r.get_id() not in temps]
         extra = []
         for tx in spec.modifies:
